@@ -33,6 +33,8 @@ pub struct Rw {
     /// R29: the enclosing fn returns Poll<Option<Result<..>>>: `?` is expanded to its FromResidual definition
     pub try_in_poll_option: bool,
     pub try_in_poll_result: bool,
+    /// R29 for plain `Result`-returning fns (opt-in per unit with `//@tryexpand`): `e?` -> match with the spec-carrying conversion
+    pub try_expand: bool,
     /// R7: `let d = v.drain(..);` bindings seen, to be consumed by `d.collect()`
     pub drains: Vec<(String, Expr)>,
 }
@@ -142,6 +144,7 @@ impl Rw {
             fn_name: String::new(),
             try_in_poll_option: false,
             try_in_poll_result: false,
+            try_expand: false,
             drains: Vec::new(),
         }
     }
@@ -382,6 +385,9 @@ impl VisitMut for Rw {
                         self.unsupported.push(format!("iter_mut().for_each with a body that is not a known no-op: {}", m.to_token_stream()));
                     }
                 }
+                Stmt::Expr(Expr::Call(c), Some(_)) if is_logging_call(c) => {
+                    self.log.push("R5 logging::* call dropped".into());
+                }
                 Stmt::Expr(e, _) => {
                     if expr_cfg_false(e) {
                         self.log.push("R10 cfg-disabled statement dropped".into());
@@ -487,6 +493,37 @@ impl VisitMut for Rw {
         visit_mut::visit_stmt_mut(self, s);
     }
 
+    fn visit_expr_match_mut(&mut self, m: &mut ExprMatch) {
+        // R30: `P if G => A, P => B` (same pattern, with bindings) -> `P => if G { A } else { B }`.
+        // (match semantics: the second arm is reached exactly when P matches and G is false; this Verus mis-handles a
+        //  guard on an arm whose pattern moves a binding)
+        let mut arms: Vec<Arm> = Vec::new();
+        let mut i = 0;
+        let old_arms: Vec<Arm> = m.arms.drain(..).collect();
+        while i < old_arms.len() {
+            let a = &old_arms[i];
+            let mut ids = Vec::new();
+            pat_idents(&a.pat, &mut ids);
+            if let (Some((_, g)), Some(b)) = (&a.guard, old_arms.get(i + 1)) {
+                if !ids.is_empty() && b.guard.is_none() && norm(&a.pat.to_token_stream().to_string()) == norm(&b.pat.to_token_stream().to_string()) {
+                    let (ab, bb) = (&a.body, &b.body);
+                    let mut merged = a.clone();
+                    merged.guard = None;
+                    merged.body = Box::new(parse_quote!(if #g { #ab } else { #bb }));
+                    merged.comma = Some(Default::default());
+                    arms.push(merged);
+                    self.log.push("R30 guarded arm merged with the following arm of the same pattern".into());
+                    i += 2;
+                    continue;
+                }
+            }
+            arms.push(a.clone());
+            i += 1;
+        }
+        m.arms = arms;
+        visit_mut::visit_expr_match_mut(self, m);
+    }
+
     fn visit_arm_mut(&mut self, a: &mut Arm) {
         let mut ids = Vec::new();
         pat_idents(&a.pat, &mut ids);
@@ -581,6 +618,16 @@ impl VisitMut for Rw {
                     None
                 }
             }
+            Expr::Call(c) if is_logging_call(c) => {
+                self.log.push("R5 logging::* call dropped (expression position)".into());
+                Some(parse_quote!(()))
+            }
+            Expr::Call(c) if norm(&c.func.to_token_stream().to_string()) == "Box::pin" && c.args.len() == 1 && matches!(&c.args[0], Expr::Async(_)) => {
+                // R19 (reduced form): an async block boxed into a repo-aliased future becomes an opaque future value.
+                // Its body is NOT verified; the result it resolves to is unconstrained.
+                self.log.push("R19 Box::pin(async {..}) -> opaque future (body not verified)".into());
+                Some(parse_quote!(vx_opaque_future()))
+            }
             Expr::Call(c) => {
                 let f = norm(&c.func.to_token_stream().to_string());
                 if f == "Pin::new" && c.args.len() == 1 {
@@ -594,7 +641,16 @@ impl VisitMut for Rw {
                 let name = m.method.to_string();
                 let pinned_place = self_field_name(&m.receiver).map_or(false, |f| self.pinned_fields.contains(&f))
                     || matches!(&*m.receiver, Expr::Path(p) if p.path.get_ident().map_or(false, |i| self.pinned_locals.contains(&i.to_string()) || i == "self"));
-                if name == "as_mut" && m.args.is_empty() && pinned_place {
+                if name == "wake_by_ref" && m.args.is_empty() && matches!(&*m.receiver, Expr::MethodCall(w) if w.method == "waker" && w.args.is_empty()) {
+                    // `cx.waker().wake_by_ref()` -> `cx.vx_wake_self()` (the ghost record of a self wake-up lives on the context)
+                    let cxe = if let Expr::MethodCall(w) = &*m.receiver { (*w.receiver).clone() } else { unreachable!() };
+                    self.log.push("R1 cx.waker().wake_by_ref() -> cx.vx_wake_self()".into());
+                    Some(parse_quote!(#cxe.vx_wake_self()))
+                } else if name == "poll_unpin" {
+                    m.method = Ident::new("poll", m.method.span());
+                    self.log.push("R1 poll_unpin -> poll".into());
+                    None
+                } else if name == "as_mut" && m.args.is_empty() && pinned_place {
                     self.log.push("R1 .as_mut() on pinned place".into());
                     Some((*m.receiver).clone())
                 } else if name == "collect" && m.args.is_empty() && matches!(&*m.receiver, Expr::Path(p) if p.path.get_ident().map_or(false, |i| self.drains.iter().any(|(n, _)| *n == i.to_string()))) {
@@ -660,13 +716,18 @@ impl VisitMut for Rw {
                 // R29: `e?` in a fn returning Poll<Option<Result<_, E>>> (core's FromResidual impl for that type)
                 let inner = (*t.expr).clone();
                 self.log.push("R29 `?` inside Poll<Option<Result>> expanded".into());
-                Some(parse_quote!(match #inner { Ok(__v) => __v, Err(__e) => return Poll::Ready(Some(Err(From::from(__e)))) }))
+                Some(parse_quote!(match #inner { Ok(__v) => __v, Err(__e) => return Poll::Ready(Some(Err(vx_conv(__e)))) }))
+            }
+            Expr::Try(t) if self.try_expand && !self.try_in_poll_option && !self.try_in_poll_result => {
+                let inner = (*t.expr).clone();
+                self.log.push("R29 `?` expanded to its definition for Result (conversion made visible to the proof)".into());
+                Some(parse_quote!(match #inner { Ok(__v) => __v, Err(__e) => return Err(vx_conv(__e)) }))
             }
             Expr::Try(t) if self.try_in_poll_result => {
                 // R29: `e?` in a fn returning Poll<Result<_, E>>
                 let inner = (*t.expr).clone();
                 self.log.push("R29 `?` inside Poll<Result> expanded".into());
-                Some(parse_quote!(match #inner { Ok(__v) => __v, Err(__e) => return Poll::Ready(Err(From::from(__e))) }))
+                Some(parse_quote!(match #inner { Ok(__v) => __v, Err(__e) => return Poll::Ready(Err(vx_conv(__e))) }))
             }
             Expr::Macro(m) => {
                 let name = macro_name(&m.mac);
@@ -935,6 +996,14 @@ fn stmt_has_foreign_await(st: &Stmt) -> bool {
     let mut f = F(false);
     syn::visit::Visit::visit_stmt(&mut f, st);
     f.0
+}
+
+fn is_logging_call(c: &ExprCall) -> bool {
+    // crate::logging::* only call tracing macros (client/src/logging/*.rs): R5
+    if let Expr::Path(p) = &*c.func {
+        return p.path.segments.first().map_or(false, |s| s.ident == "logging");
+    }
+    false
 }
 
 fn is_iter_mut_call(e: &Expr) -> bool {
